@@ -29,6 +29,7 @@ def run(ctx):
         ctx.run_rule(name, getattr(r_c, "rule_" + name))
     ctx.run_rule("R1c", r_round.rule_R1_c)
     ctx.run_rule("LZC", r_c.rule_LZC)
+    ctx.run_rule("W1C", r_c.rule_W1C)
     ctx.run_rule("K4c", r_round.rule_K4_c)
     ctx.run_rule("K5c", r_round.rule_K5_c)
     ctx.run_rule("F8c", r_round.rule_F8_c)
